@@ -141,7 +141,16 @@ fn main() {
             break;
         }
         i += 1;
-        let (int, frac, exp, tag) = if i % 3 == 0 {
+        let (int, frac, exp, tag) = if i % 16 == 5 {
+            // zero significands: empty or all '0' (valid as a fraction; a precondition violation as an integer), any exponent
+            let z = |rng: &Rng| -> Vec<u8> { vec![b'0'; *rng.pick(&[0usize, 0, 1, 2, 5, 18, 19, 20, 40])] };
+            let e = match rng.below(4) {
+                0 => rng.range(20, 70) as i32,
+                1 => rng.range(-70, -20) as i32,
+                _ => pick_exp(&rng),
+            };
+            (z(&rng), z(&rng), e, "zero_significand")
+        } else if i % 3 == 0 {
             let (a, b, e) = targeted(&rng, i / 3);
             (a, b, e, "targeted_valid")
         } else {
